@@ -159,6 +159,60 @@ def extract_from_json(repo, cname):
     return {'c': ctext, 'lines': (first, last), 'origin': origin, 'dropped': dropped, 'rules_fired': len(fired)}
 
 
+SIG_TOJSON = r'\bstd::string\s+Data::toJSON\s*\(\s*const\s+Data\s*&\s*(\w+)\s*\)\s*'
+
+
+def extract_tojson_slices(repo):
+    """Two slices of Data::toJSON (the writer recurses over std::map / std::list and is otherwise out of reach):
+       tojson_key  - the ONE stream statement that writes an object key (the statement mentioning compoundIter->first and os <<),
+                     with compoundIter->first -> key, std::endl -> "\\n", jsonEscape(..) -> the extracted json_escape;
+       tojson_atom - the branches that write an atom: from `else if (<d>.atom.size() > 0)` to the end of the if-chain, with the
+                     XML-node branch (#ifndef NO_XERCESC) dropped, <d>.atom -> atom, <d>.type == Data::VERBATIM -> verbatim.
+    Everything else of toJSON (iteration, indentation bookkeeping, recursion) is dropped."""
+    path = os.path.join(repo, SRC)
+    first, last, sigtext, body = rules.find_function(path, SIG_TOJSON)
+    d = re.search(SIG_TOJSON, sigtext).group(1)
+    # the XML-node branch (#ifndef NO_XERCESC ... #endif) is dropped
+    body, ndrop = re.subn(r'^[ \t]*#\s*ifndef\s+NO_XERCESC\b.*?^[ \t]*#\s*endif[^\n]*$', '', body, flags=re.S | re.M)
+    if '#' in rules.strip_literals(body):
+        raise rules.ExtractionError('toJSON: preprocessor lines other than the NO_XERCESC block')
+    # ---- key statement
+    stmts = [m.group(0) for m in re.finditer(r'\bos\s*<<[^;]*;', body) if 'compoundIter->first' in m.group(0)]
+    if len(stmts) != 1:
+        raise rules.ExtractionError('toJSON: expected exactly one stream statement writing compoundIter->first, found %d' % len(stmts))
+    st = re.sub(r'[\n\t]+', ' ', stmts[0]).strip()   # keep blanks inside string literals as they are
+    st = st.replace('compoundIter->first', 'key').replace('std::endl', '"\\n"')
+    st = re.sub(r'\bjsonEscape\s*\(', 'json_escape(', st)
+    rw = rules.StringRewriter(['seperator', 'indent', 'keyPadding', 'key'], ['os'])
+    rw.sv.add('os')
+    key_c = rw.rewrite_line(st)
+    key_fn = ('/* %s:%d-%d toJSON, the statement that writes an object key */\n'
+              'vstr tojson_key(vstr seperator, vstr indent, vstr keyPadding, size_t longestKey, vstr key) {\n  vstr os = vstr_empty();\n  %s\n  return os;\n}\n' % (SRC, first, last, key_c))
+    rules.check_residue(key_fn, rw.sv, 'tojson_key')
+    if re.search(r'compoundIter|->|\bdata\b', rules.strip_literals(key_fn)):
+        raise rules.ExtractionError('toJSON key statement not fully rewritten: ' + key_c)
+    # ---- atom branches
+    m = re.search(r'\}\s*else\s+if\s*\(\s*%s\.atom\.size\(\)\s*>\s*0\s*\)\s*\{' % d, body)
+    if not m:
+        raise rules.ExtractionError('toJSON: branch `else if (%s.atom.size() > 0)` not found' % d)
+    m2 = re.search(r'\breturn\s+os\.str\(\)\s*;', body)
+    if not m2 or m2.start() < m.end():
+        raise rules.ExtractionError('toJSON: `return os.str();` after the atom branches not found')
+    chain = 'if (0) {\n' + body[m.start():m2.start()]
+    chain = chain.replace('%s.atom' % d, 'atom')
+    chain = re.sub(r'%s\.type\s*==\s*Data::VERBATIM' % d, 'verbatim', chain)
+    chain = re.sub(r'\bjsonEscape\s*\(', 'json_escape(', chain)
+    if re.search(r'\b%s\b' % d, rules.strip_literals(chain)):
+        raise rules.ExtractionError('toJSON atom branches use %s beyond .atom / .type == Data::VERBATIM: not a leaf any more' % d)
+    rw2 = rules.StringRewriter(['atom'], ['os'])
+    rw2.sv.add('os')
+    lines = [rw2.rewrite_line(l) for l in chain.split('\n')]
+    atom_fn = ('/* toJSON, the branches that write an atom (string / number / empty) */\n'
+               'vstr tojson_atom(int verbatim, vstr atom) {\n  vstr os = vstr_empty();\n%s\n  return os;\n}\n' % '\n'.join(l for l in lines if l.strip()))
+    rules.check_residue(atom_fn, rw2.sv, 'tojson_atom')
+    return {'c': key_fn + '\n' + atom_fn, 'lines': (first, last)}
+
+
 def write_all(repo, outdir):
     os.makedirs(outdir, exist_ok=True)
     esc = extract_string_fn(repo, SIG_ESC, 'json_escape')
@@ -173,7 +227,9 @@ def write_all(repo, outdir):
         for name, info in (('jsonUnescape', unesc), ('jsonEscape', esc), ('fromJSON', walk)):
             for o, l in zip(info['origin'], info['c'].split('\n')[1:-2]):
                 f.write('%-36s | %s\n' % (o, l))
-    return p1, p2, {'escape': esc, 'unescape': unesc, 'walk': walk}
+    tj = extract_tojson_slices(repo)
+    open(p1, 'a').write('\n' + tj['c'])
+    return p1, p2, {'escape': esc, 'unescape': unesc, 'walk': walk, 'tojson': tj}
 
 
 if __name__ == '__main__':
